@@ -1,4 +1,4 @@
-_L = dict(cls='F', tu='C10_layout.c', dfcc=False, unwind=257, timeout=900)
+_L = dict(cls='P', tu='C10_layout.c', canary='real', unwind=1, timeout=900)
 GROUPS = [
  dict(_L, name='validate_layout', entry='h_validate_layout', functions=['validate_layout'], what='validate_layout accepts exactly the layouts whose entries are < streams+coupled or 255, with streams+coupled <= 255'),
  dict(_L, name='get_left_channel', entry='h_get_left_channel', functions=['get_left_channel'], what='least index after prev mapped to 2*stream'),
@@ -6,3 +6,10 @@ GROUPS = [
  dict(_L, name='get_mono_channel', entry='h_get_mono_channel', functions=['get_mono_channel'], what='least index after prev mapped to stream+coupled'),
 ]
 META = {}
+_M = dict(tu='C10_ms_decoder.c', dfcc=False, canary='real', trusted=['parser stub carrying the C06 clauses (count from TOC, consumed length within the packet)', 'stub sizes/init of the single-stream decoder (C11)'])
+GROUPS += [
+ dict(_M, cls='B', name='ms_packet_validate', entry='h_ms_validate', unwind=5, timeout=1800, functions=['opus_multistream_packet_validate', 'opus_packet_get_nb_samples', 'opus_packet_get_nb_frames', 'opus_packet_get_samples_per_frame'],
+      bounds='<= 3 streams (packet length and bytes unbounded / symbolic)', what='packet walk: self-delimited framing for all but the last stream, equal durations, result = common duration'),
+ dict(_M, cls='B', name='ms_decoder_init', entry='h_ms_decoder_init', unwind=6, timeout=1800, expect_canaries=2, functions=['opus_multistream_decoder_get_size', 'opus_multistream_decoder_init', 'validate_layout'],
+      bounds='<= 3 streams, <= 4 channels (stream counts otherwise any int)', what='get_size/init argument validation and per-stream state layout'),
+]
